@@ -1063,7 +1063,7 @@ def replay_layered(cex):
                     if not np.isnan(syn[0, r, f]):
                         msgs.append(f"datum ({r},{f}) without observation "
                                     f"is not NaN")
-                elif not np.isclose(syn[0, r, f], ref[f], rtol=1e-8):
+                elif not np.isclose(syn[0, r, f], ref[f], rtol=1e-8, atol=0):
                     msgs.append(f"response ({r},{f}) differs from the "
                                 f"direct 1D modeller call")
         if not allnan and not msgs:
@@ -1113,7 +1113,7 @@ def replay_layered(cex):
                 ref = direct(sig_h2, sig_v2, r)
                 for f in range(2):
                     if not (nan[0, r, f] and not allnan) and not np.isclose(
-                            syn2[0, r, f], ref[f], rtol=1e-8):
+                            syn2[0, r, f], ref[f], rtol=1e-8, atol=0):
                         msgs.append(f"after an in-place model update the "
                                     f"response ({r},{f}) is not the one of "
                                     f"the new layering")
